@@ -8,7 +8,9 @@ from ..env import gfapy, GfapyError
 from ..runner import Part, Violation
 
 ID = "C15"
-RULE = ("GFA1 graphs (segments with sequence/LN, custom and count tags RC/FC/KC; links on both ends incl. parallel "
+RULE = ("part 'gfa2': GFA2 graphs with named and anonymous E lines of every kind (dovetail, containment, internal) "
+        "with count tags, gaps / fragments / sets as bystanders, without link distribution: copies of segments and "
+        "of every incident edge, floor-divided counts, unique edge identifiers. part 'gfa1': GFA1 graphs (segments with sequence/LN, custom and count tags RC/FC/KC; links on both ends incl. parallel "
         "links with different overlaps and asymmetric CIGARs, containments in both roles, count tags on edges; "
         "self-links as a separately labelled class; bystander segments, links, containments and paths) x target "
         "segment x factor -1..4 x distribute in {None, off, auto, equal, L, R} x copy names {automatic, given, "
@@ -51,6 +53,16 @@ def contkey(pos, tags, factor=None):
 def ends_of(pos):
     f, fo, t, to = pos[:4]
     return (f, "R" if fo == "+" else "L"), (t, "L" if to == "+" else "R")
+
+
+def check_edge_ids(g, recs, ctx, keep=True):
+    """Identifiers of edges stay unique; without link distribution the original edges keep theirs."""
+    ids = [str(x.get("ID")) for x in g.dovetails + g.containments if x.get("ID") is not None]
+    if len(ids) != len(set(ids)):
+        raise Violation("edge-ids", "%s\nedge identifiers are not unique after multiplication: %s" % (ctx, sorted(ids)))
+    want = sorted(r.tag("ID")[1] for r in recs if r.rt in "LC" and r.tag("ID"))
+    if keep and not set(want) <= set(ids):
+        raise Violation("edge-ids", "%s\noriginal edge identifiers lost: %s vs %s" % (ctx, want, sorted(ids)))
 
 
 def observed(g):
@@ -124,6 +136,7 @@ def prop(case):
             raise Violation("factor0", "%s\nfactor 0 is not the removal of the segment: %s" % (ctx, G.counter_diff(want, got)))
         return {"nt": False, "factor": 0}
     segs, links, conts, paths, link_list = observed(g)
+    check_edge_ids(g, recs, ctx, keep=distribute in (None, "off"))
     src = {r.pos[0]: r for r in recs if r.rt == "S"}
     new = sorted(set(segs) - set(src))
     if len(new) != factor - 1 or set(src) - set(segs):
@@ -153,8 +166,8 @@ def prop(case):
         for r in link_list:
             mk = r.tag("xx")
             if mk and mk[1] in src_by_marker and (r.pos[0] in copies or r.pos[2] in copies):
-                want_t = tagkey(src_by_marker[mk[1]].tags, factor)
-                if tagkey(r.tags) != want_t:
+                want_t = tagkey([t for t in src_by_marker[mk[1]].tags if t[0] != "ID"], factor)
+                if tagkey([t for t in r.tags if t[0] != "ID"]) != want_t:
                     raise Violation("self-link-counts", "%s\nlink %r: tags/counts %s, expected those of %r with the counts divided by %d once: %s" % (
                         ctx, r.text(), tagkey(r.tags), src_by_marker[mk[1]].text(), factor, want_t), "counts")
         return {"nt": False, "factor": factor, "self_link": True}
@@ -282,6 +295,8 @@ def build(r):
             if gen.chance(r, 0.35):
                 tags.append([ct, "i", str(r.randint(0, 500))])
         tags.append(["xx", "Z", "t%d" % len(links)])  # unique marker: identifies the source of a copied link
+        if gen.chance(r, 0.3):
+            tags.append(["ID", "Z", "id%d" % len(links)])
         links.append(["L", [f, fo, t, to, ov], tags])
 
     others = [x for x in names if x != target] or names
@@ -300,7 +315,7 @@ def build(r):
         a, b = (target, gen.choice(r, others)) if gen.chance(r, 0.5) else (gen.choice(r, others), target)
         if gen.chance(r, 0.3):
             a, b = gen.choice(r, others), gen.choice(r, others)
-        tags = [["RC", "i", str(r.randint(0, 99))]] if gen.chance(r, 0.0) else []
+        tags = [["ID", "Z", "cid%d" % len(lines)]] if gen.chance(r, 0.3) else []
         lines.append(["C", [a, gen.choice(r, "+-"), b, gen.choice(r, "+-"), str(r.randint(0, 3)), gen.choice(r, ["*", "2M"])], tags])
     # a bystander path over links that do not touch the target
     by = [l for l in links if target not in (l[1][0], l[1][2])]
@@ -323,5 +338,138 @@ def st_case(draw):
             "by_instance": gen.chance(r, 0.3), "vlevel": gen.choice(r, [1, 1, 2, 3])}
 
 
+# ---------------------------------------------------------------- GFA2
+
+def ekey(pos, tags, factor=None):
+    rec = G.Rec("E", ["*"] + list(pos[1:]), [], "gfa2")
+    return ("E", G.canon_rec(rec)[1], tagkey(tags, factor))
+
+
+def prop2(case):
+    doc, target, factor = case["doc"], case["segment"], case["factor"]
+    lines = gen.doc_lines(doc)
+    text = "\n".join(lines)
+    recs = [G.Rec.from_plain(l, "gfa2") for l in doc["lines"]]
+    try:
+        g = gfapy.Gfa(lines, version="gfa2", vlevel=case.get("vlevel", 1))
+    except Exception as e:
+        raise Violation("load", "valid graph not loaded: %s: %s\n%s" % (type(e).__name__, str(e)[:300], text), type(e).__name__)
+    ctx = "multiply(%r, %d) [GFA2]\n%s" % (target, factor, text)
+    before = O.observe(g)
+    try:
+        g.multiply(target, factor)
+        raised = None
+    except Exception as e:
+        raised = e
+    if factor < 0:
+        if not isinstance(raised, gfapy.ArgumentError) or O.observe(g) != before:
+            raise Violation("negative", "%s\nnegative factor: %r / state changed: %s" % (ctx, raised, O.observe(g) != before))
+        return {"nt": False}
+    if raised is not None:
+        raise Violation("raised", "%s\nraised %s: %s" % (ctx, type(raised).__name__, str(raised)[:300]),
+                        "%s/gfa2" % type(raised).__name__)
+    after_text = str(g)
+    ctx += "\n-- after --\n" + after_text
+    probs = O.invariants(g)
+    if probs:
+        raise Violation("invariant", "%s\n%s" % (ctx, probs[:4]))
+    if factor == 1:
+        if O.observe(g) != before:
+            raise Violation("factor1", "%s\nfactor 1 changed the graph" % ctx)
+        return {"nt": False}
+    if factor == 0:
+        m = M.ModelDoc("gfa2", recs)
+        m.remove(m.by_name(target))
+        if G.canon_doc(after_text, "gfa2") != G.canon_doc(m.text(), "gfa2"):
+            raise Violation("factor0", "%s\nfactor 0 is not the removal of the segment" % ctx)
+        return {"nt": False}
+    out = [G.split_line(x, "gfa2") for x in after_text.split("\n") if x]
+    segs = {r.pos[0]: r for r in out if r.rt == "S"}
+    src = {r.pos[0]: r for r in recs if r.rt == "S"}
+    new = sorted(set(segs) - set(src))
+    if len(new) != factor - 1:
+        raise Violation("n-copies", "%s\nexpected %d copies, got %s" % (ctx, factor - 1, new))
+    copies = [target] + new
+    t = src[target]
+    for c in copies:
+        r = segs[c]
+        if r.pos[1:] != t.pos[1:] or tagkey(r.tags) != tagkey(t.tags, factor):
+            raise Violation("copy-differs", "%s\nsegment %s is not a faithful copy" % (ctx, c))
+    self_edge = any(r.rt == "E" and r.pos[1][:-1] == target and r.pos[2][:-1] == target for r in recs)
+    want = Counter()
+    for r in recs:
+        if r.rt != "E":
+            continue
+        a, b = r.pos[1][:-1], r.pos[2][:-1]
+        if target in (a, b) and M.classify_edge(r)[0] in "LC":
+            if a == b:
+                continue
+            for c in copies:
+                p = list(r.pos)
+                p[1] = (c if a == target else a) + r.pos[1][-1]
+                p[2] = (c if b == target else b) + r.pos[2][-1]
+                want[ekey(p, r.tags, factor)] += 1
+        elif not (a == target and b == target):
+            want[ekey(r.pos, r.tags)] += 1
+    got = Counter()
+    for r in out:
+        if r.rt == "E":
+            a, b = r.pos[1][:-1], r.pos[2][:-1]
+            if a in copies and b in copies:
+                continue  # copies of self-edges: where the other side goes is not specified
+            got[ekey(r.pos, r.tags)] += 1
+    if got != want:
+        raise Violation("edges", "%s\nE lines differ: %s" % (ctx, G.counter_diff(want, got)), "self" if self_edge else "-")
+    eids = [r.pos[0] for r in out if r.rt == "E" and r.pos[0] != "*"]
+    if len(eids) != len(set(eids)) or not set(r.pos[0] for r in recs if r.rt == "E" and r.pos[0] != "*") <= set(eids):
+        raise Violation("edge-ids", "%s\nedge identifiers not unique or lost: %s" % (ctx, eids))
+    other = Counter(G.canon_rec(r) for r in recs if r.rt in "GFOU#")
+    other_got = Counter(G.canon_rec(r) for r in out if r.rt in "GFOU#")
+    if other != other_got:
+        raise Violation("bystander", "%s\ngaps / fragments / groups changed: %s" % (ctx, G.counter_diff(other, other_got)))
+    n_inc = sum(1 for r in recs if r.rt == "E" and target in (r.pos[1][:-1], r.pos[2][:-1]))
+    return {"nt": n_inc >= 2, "factor": factor, "gfa2": True}
+
+
+@st.composite
+def st_case2(draw):
+    r = draw(st.randoms(use_true_random=False))
+    n = r.randint(2, 4)
+    names = ["A", "B", "C", "D"][:n]
+    lines = []
+    for s_ in names:
+        tags = []
+        for ct in COUNT:
+            if gen.chance(r, 0.4):
+                tags.append([ct, "i", str(r.randint(0, 1000))])
+        lines.append(["S", [s_, "10", "*" if gen.chance(r, 0.5) else gen.gen_sequence(r, 10)], tags])
+    target = names[0]
+    k = 0
+    for _ in range(r.randint(1, 6)):
+        a, b = (target, gen.choice(r, names)) if gen.chance(r, 0.5) else (gen.choice(r, names), target)
+        if gen.chance(r, 0.25):
+            a, b = gen.choice(r, names), gen.choice(r, names)
+        if a == b and gen.chance(r, 0.7):
+            continue
+        b1, e1, _k = gen.interval(r, 10)
+        b2, e2, _k = gen.interval(r, 10)
+        tags = [["xx", "Z", "t%d" % k]]
+        for ct in COUNT:
+            if gen.chance(r, 0.3):
+                tags.append([ct, "i", str(r.randint(0, 500))])
+        eid = "e%d" % k if gen.chance(r, 0.5) else "*"
+        k += 1
+        lines.append(["E", [eid, a + gen.choice(r, "+-"), b + gen.choice(r, "+-"), b1, e1, b2, e2, gen.gen_alignment_gfa2(r)], tags])
+    if gen.chance(r, 0.4) and len(names) > 1:
+        lines.append(["G", ["*", names[1] + "+", names[-1] + "-", "5", "*"], []])
+    if gen.chance(r, 0.3) and len(names) > 1:
+        lines.append(["F", [names[1], "read+", "0", "2", "0", "2", "*"], []])
+    if gen.chance(r, 0.3) and len(names) > 1:
+        lines.append(["U", ["u1", names[1]], []])
+    return {"doc": {"version": "gfa2", "lines": lines}, "segment": target, "factor": gen.choice(r, [-1, 0, 1, 2, 2, 3, 4]),
+            "vlevel": gen.choice(r, [1, 1, 2, 3])}
+
+
 def parts(tier):
-    return [Part("gfa1", prop, strategy=st_case(), n=500 if tier == "quick" else 2500, quick_shards=2)]
+    return [Part("gfa1", prop, strategy=st_case(), n=500 if tier == "quick" else 2500, quick_shards=2),
+            Part("gfa2", prop2, strategy=st_case2(), n=250 if tier == "quick" else 1200, quick_shards=2)]
